@@ -19,7 +19,7 @@ use std::sync::atomic::{AtomicU64, Ordering};
 use std::sync::{Arc, Mutex};
 use std::time::Duration;
 
-type Log = Arc<Mutex<Vec<(u64, Value)>>>;
+pub(crate) type Log = Arc<Mutex<Vec<(u64, Value)>>>;
 
 #[derive(Clone, Debug)]
 struct Chan {
@@ -98,14 +98,14 @@ fn make_payload(rng: &mut Rng, idx: u8, seq: u32, fin: bool) -> Vec<u8> {
     p
 }
 
-fn merge(mut a: Value, b: Value) -> Value {
+pub(crate) fn merge(mut a: Value, b: Value) -> Value {
     for (k, v) in b.as_object().unwrap() {
         a[k] = v.clone();
     }
     a
 }
 
-async fn jitter(rng: &mut Rng) {
+pub(crate) async fn jitter(rng: &mut Rng) {
     match rng.below(16) {
         0..=4 => tokio::task::yield_now().await,
         5 => tokio::time::sleep(Duration::from_micros(rng.below(400))).await,
@@ -146,6 +146,10 @@ async fn agent(mut ch: AgentChannel, spec: AgentSpec, ticket: Arc<AtomicU64>, lo
             match tokio::time::timeout(patience, ch.enqueue_chunk(p.clone())).await {
                 Ok(Ok(())) => {
                     log.lock().unwrap().push((t, merge(json!({"ev": "enq", "t": t, "ch": cj, "fin": fin_flag}), proj)));
+                    if DETAIL.load(Ordering::Relaxed) {
+                        let t2 = ticket.fetch_add(1, Ordering::SeqCst);
+                        log.lock().unwrap().push((t2, json!({"ev": "enq_done", "t": t2, "ch": cj})));
+                    }
                     seq += 1;
                     sent[spec.idx as usize].fetch_add(1, Ordering::SeqCst);
                 }
@@ -159,6 +163,10 @@ async fn agent(mut ch: AgentChannel, spec: AgentSpec, ticket: Arc<AtomicU64>, lo
                 }
             }
         } else {
+            if DETAIL.load(Ordering::Relaxed) {
+                let t0 = ticket.fetch_add(1, Ordering::SeqCst);
+                log.lock().unwrap().push((t0, json!({"ev": "deq_start", "t": t0, "ch": cj})));
+            }
             match tokio::time::timeout(patience, ch.dequeue_chunk()).await {
                 Ok(Ok(p)) => {
                     let t = ticket.fetch_add(1, Ordering::SeqCst); // AFTER the return
@@ -173,7 +181,12 @@ async fn agent(mut ch: AgentChannel, spec: AgentSpec, ticket: Arc<AtomicU64>, lo
                     log.lock().unwrap().push((t, json!({"ev": "deq_err", "t": t, "ch": cj, "err": e.to_string()})));
                     break;
                 }
-                Err(_) => {}
+                Err(_) => {
+                    if DETAIL.load(Ordering::Relaxed) {
+                        let t = ticket.fetch_add(1, Ordering::SeqCst);
+                        log.lock().unwrap().push((t, json!({"ev": "deq_none", "t": t, "ch": cj})));
+                    }
+                }
             }
         }
     }
@@ -181,17 +194,20 @@ async fn agent(mut ch: AgentChannel, spec: AgentSpec, ticket: Arc<AtomicU64>, lo
 }
 
 static RETRIES: AtomicU64 = AtomicU64::new(0);
+/// `--detail 1`: also log when an enqueue returned and when a dequeue call started / gave up, so that
+/// TraceMux can treat every call as an interval (partial order) instead of a point.
+static DETAIL: std::sync::atomic::AtomicBool = std::sync::atomic::AtomicBool::new(false);
 
 #[derive(Clone, Copy)]
-struct Limits {
-    idle: Duration,     // no new event for this long => the run is stuck
-    deadline: Duration, // absolute cap
+pub(crate) struct Limits {
+    pub(crate) idle: Duration,     // no new event for this long => the run is stuck
+    pub(crate) deadline: Duration, // absolute cap
 }
 
 /// Wait until every task finished; give up when the log stops growing.
 /// Returns true when it gave up (the quiesce event then names the stuck agents
 /// and TLC decides whether something enqueued was never delivered).
-async fn wait_all<T>(hs: &[&tokio::task::JoinHandle<T>], log: &Log, limits: Limits) -> bool {
+pub(crate) async fn wait_all<T>(hs: &[&tokio::task::JoinHandle<T>], log: &Log, limits: Limits) -> bool {
     let start = std::time::Instant::now();
     let mut last_len = 0usize;
     let mut last_change = std::time::Instant::now();
@@ -458,6 +474,7 @@ pub fn trace(args: &Args) {
         deadline: Duration::from_secs(args.num("deadline", 180)),
     };
     let workers = args.num("threads", 4) as usize;
+    DETAIL.store(args.num("detail", 0) == 1, Ordering::Relaxed);
     let mut out = Ndjson::create(args.get("out"));
     let rt = tokio::runtime::Builder::new_multi_thread()
         .worker_threads(workers)
